@@ -26,6 +26,9 @@ type c06Case struct {
 	Code   int      `json:"code,omitempty"`
 	Types  []uint16 `json:"types,omitempty"`
 	PrevIP hx       `json:"prev_ip,omitempty"` // what the getter's destination held before
+	// Reserved: the 21 reserved bits of an ERROR-CODE produced by the independent encoder (RFC 5389 15.6:
+	// "SHOULD be 0 ... Receivers MUST ignore these bits")
+	Reserved uint32 `json:"reserved,omitempty"`
 	Before []bop    `json:"before,omitempty"`  // unrelated attributes preceding it
 }
 
@@ -204,7 +207,9 @@ func runC06(c c06Case) error {
 		if c.Attr == "errcode" && len(rreason) == 0 {
 			return fmt.Errorf("default reason for %d is empty", c.Code)
 		}
-		rm := ref.Encode(1, 3, tid, []ref.EAttr{{Type: 0x0009, Value: want}})
+		rfc := append([]byte(nil), want...)
+		rfc[0], rfc[1], rfc[2] = byte(c.Reserved>>13), byte(c.Reserved>>5), rfc[2]|byte(c.Reserved<<3)
+		rm := ref.Encode(1, 3, tid, []ref.EAttr{{Type: 0x0009, Value: rfc}})
 		dm := new(stun.Message)
 		if err := stun.Decode(rm, dm); err != nil {
 			return err
@@ -212,7 +217,7 @@ func runC06(c c06Case) error {
 		for i, mm := range []*stun.Message{fresh, dm} {
 			var e stun.ErrorCodeAttribute
 			if gerr := e.GetFrom(mm); gerr != nil || int(e.Code) != c.Code {
-				return fmt.Errorf("ERROR-CODE round trip (%d): got %d (%v), want %d", i, e.Code, gerr, c.Code)
+				return fmt.Errorf("ERROR-CODE round trip (%d: %s, reserved bits %#x): got %d (%v), want %d", i, ifThen(i == 0, "library-encoded", "RFC-encoded"), uint32(i)*c.Reserved, e.Code, gerr, c.Code)
 			}
 			if (c.Attr == "errattr" || i == 1) && !bytes.Equal(e.Reason, unHex(c.Val)) {
 				return fmt.Errorf("ERROR-CODE reason round trip (%d): got %q", i, e.Reason)
@@ -308,6 +313,9 @@ func genC06(rt *rapid.T) (c06Case, bool) {
 		c.Code = rapid.IntRange(300, 699).Draw(rt, "code")
 		c.Val = genText(rt, 763)
 		nt = len(c.Val) > 0
+		if rapid.Bool().Draw(rt, "reservedBits") {
+			c.Reserved = rapid.Uint32Range(0, 1<<21-1).Draw(rt, "reserved")
+		}
 	case "errcode":
 		c.Code = rapid.SampledFrom(defaultReasonCodes).Draw(rt, "dcode")
 		nt = true
